@@ -128,6 +128,18 @@ public:
     virtual void
     ProcessXObjectTypeCallback(XObjectTypeCallback&     theCallbackObject) const;
 
+protected:
+
+    /**
+     * Discard the cached number value.  Derived classes must call this
+     * when their string value changes.
+     */
+    void
+    clearCachedNumberValue()
+    {
+        m_cachedNumberValue = 0.0;
+    }
+
 private:
 
     friend class XObjectResultTreeFragProxyText;
